@@ -363,6 +363,55 @@ example : Pass.InDependencyOrder []
     rw [this] at hn
     exact absurd hn (by decide)
 
+/-- supplier and user of the two-schema example -/
+def pSup : Pass.PSchema := { name := "m2", types := [{ name := "m2.colour", isEnum := true }], ents := [] }
+def pUse : Pass.PSchema := { name := "m1", types := [], ents := [{ name := "m1.thing", items := ["m2.colour"] }], stubs := [{ name := "m2.colour", isEnum := true, foreign := true }] }
+
+/-- … and by a file with a REAL dependency: `m1.thing` has an attribute of `m2`'s enumeration, `m2` comes first -/
+theorem two_schema_in_order : Pass.InDependencyOrder [] [pSup, pUse] := by
+  have nofor2 : ∀ n, Pass.isForeign pSup.os n = false := by
+    intro n
+    simp only [pSup, Pass.PSchema.os, Pass.isForeign, Pass.lookup, List.append_nil, List.find?]
+    split <;> rfl
+  refine ⟨⟨by decide, fun o _ => nofor2 o.name, (fun o ho => by cases ho), ?_⟩, ?_, by decide, by decide, ?_⟩
+  · intro i o hl hs
+    have := List.mem_of_find?_eq_some hl
+    simp [pSup, Pass.PSchema.os] at this
+    subst this
+    exact absurd hs (by decide)
+  · intro n hn
+    rw [nofor2 n] at hn
+    exact absurd hn (by decide)
+  · refine ⟨⟨by decide, (fun o ho => by cases ho), ?_, ?_⟩, ?_, by decide, by decide, trivial⟩
+    · intro o ho
+      have : o = { name := "m1.thing", items := ["m2.colour"] } := by simpa [pUse] using ho
+      subst this
+      decide
+    · intro i o hl hs
+      have := List.mem_of_find?_eq_some hl
+      simp [pUse, Pass.PSchema.os] at this
+      rcases this with rfl | rfl <;> exact absurd hs (by decide)
+    · intro n hn
+      refine ⟨pSup, by simp, { name := "m2.colour", isEnum := true }, by simp [pSup, Pass.PSchema.own], ?_⟩
+      simp only [pUse, Pass.PSchema.os, Pass.isForeign, Pass.lookup, List.nil_append, List.cons_append, List.find?] at hn
+      split at hn
+      · exact absurd hn (by decide)
+      · split at hn
+        · rename_i h2
+          simpa using h2
+        · exact absurd hn (by decide)
+
+/-- own object names of the two schemas are disjoint (the other hypothesis of the link lemmas) -/
+example : Pass.OwnDisjoint [pSup, pUse] := by
+  refine ⟨?_, ⟨(fun q hq => by cases hq), trivial⟩⟩
+  intro q hq o ho o' ho'
+  have hq' : q = pUse := by simpa using hq
+  subst hq'
+  have h1 : o = { name := "m1.thing", items := ["m2.colour"] } := by simpa [pUse, Pass.PSchema.own] using ho
+  have h2 : o' = { name := "m2.colour", isEnum := true } := by simpa [pSup, Pass.PSchema.own] using ho'
+  subst h1; subst h2
+  decide
+
 /-- … in particular for a self-contained schema started with everything NOTKNOWN. -/
 theorem C17_self_contained_schema_one_pass_loop (os order : List Pass.Obj) (hnd : (order.map (·.name)).Nodup)
     (hnf : ∀ n, Pass.isForeign os n = false) (k : Nat) :
